@@ -11,7 +11,7 @@ import os
 import re
 import shutil
 import vlib
-from checks import cpueq, cpusafe
+from checks import cpueq, cpusafe, cpucb
 
 EXTRACT_V = """Require Extraction.
 Require Import ExtrOcamlBasic.
@@ -446,19 +446,46 @@ Lemma tie : bad = []. Proof. reflexivity. Qed.
 def run_c12(ck):
     models, corr, tie_ok, stats = common(ck, "C12")
     harness, _ = vlib.build_harness()
+    cb_ok, cb_broken = True, []
+    ck.trusted.append("Go harness /verif/harness/cbtool.go (falsifier: the callbacks clause stated on both compiled interpreters; not part of the proof) and "
+                      "the three callback primitives of coq/Lib/Machine.v (cb_pc, cb_absent_OnWDM, cb_call_OnWDM: events EvPC / EvWDM), validated by the lockstep tie")
     if models:
         def one(mod):
-            txt8, _ = cpusafe.generate(os.path.join(vlib.GEN, mod + ".v"), mod)
-            p8 = os.path.join(vlib.RUN, "C08_%s.v" % mod)
-            vlib.write_if_changed(p8, txt8)
-            rc8, out8, dt8, _ = vlib.coqc(p8, timeout=1800)
+            # C08 (ranges) in parallel with the quiet-routine and Step lemmas of the callbacks clause; then C12 (cycles) in
+            # parallel with the callbacks theorems (which need C08 for the ranges of PPC / PRK)
+            def c08():
+                txt8, _ = cpusafe.generate(os.path.join(vlib.GEN, mod + ".v"), mod)
+                p8 = os.path.join(vlib.RUN, "C08_%s.v" % mod)
+                vlib.write_if_changed(p8, txt8)
+                return vlib.coqc(p8, timeout=1800)
+
+            def cbq():
+                files, cbinfo = cpucb.generate(os.path.join(vlib.GEN, mod + ".v"), mod)
+                for n, txt in files.items():
+                    vlib.write_if_changed(os.path.join(vlib.RUN, n + ".v"), txt)
+                dt = 0.0
+                for n in ("C12_cbq_" + mod, "C12_cbs_" + mod):
+                    rc, out, d, _ = vlib.coqc(os.path.join(vlib.RUN, n + ".v"), timeout=1800)
+                    dt += d
+                    if rc != 0:
+                        return cbinfo, rc, out, dt, n
+                return cbinfo, 0, "", dt, ""
+            (rc8, out8, dt8, _), (cbinfo, rcq, outq, dtq, nq) = vlib.parallel([c08, cbq])
             txt, info = cpusafe.generate_c12(os.path.join(vlib.GEN, mod + ".v"), mod)
             pv = os.path.join(vlib.RUN, "C12_%s.v" % mod)
             vlib.write_if_changed(pv, txt)
             if rc8 != 0:
+                cb_res[mod] = (cbinfo, rc8, out8, dtq, "C08_" + mod)
                 return mod, info, rc8, out8, dt8, False
-            rc, out, dt, cached = vlib.coqc(pv, timeout=1800)
+
+            def cbt():
+                if rcq != 0:
+                    return cbinfo, rcq, outq, dtq, nq
+                rc, out, d, _ = vlib.coqc(os.path.join(vlib.RUN, "C12_cb_%s.v" % mod), timeout=900)
+                return cbinfo, rc, out, dtq + d, "C12_cb_" + mod
+            (rc, out, dt, cached), cb_res[mod] = vlib.parallel([lambda: vlib.coqc(pv, timeout=1800), cbt])
             return mod, info, rc, out, dt8 + dt, cached
+        cb_res = {}
         all_ok = True
         for (mod, info, rc, out, dt, cached) in vlib.parallel([lambda m=m: one(m) for m in ("GenCpu65", "GenCpuAlt")]):
             m = re.search(r"\(in proof (\w+)\)", out)
@@ -474,6 +501,25 @@ def run_c12(ck):
                 ck.violation("C12.theorem.%s.%s" % (mod, failing.split()[0] if failing else "x"), "broken-theorem",
                              "cycle-accounting lemma %s over the regenerated model %s no longer checks; the Go falsifiers (cycles >= 1 on every case, RunUntil contract) found no failing input" % (failing, mod),
                              {"lemma": failing, "file": "build/work/Run/C12_%s.v" % mod})
+        for mod in ("GenCpu65", "GenCpuAlt"):
+            cbinfo, rc, out, dt, fname = cb_res.get(mod, ({}, 1, "not run", 0.0, ""))
+            failing = ""
+            if rc != 0:
+                failing = cpucb.failing_lemma(os.path.join(vlib.RUN, fname + ".v"), out) or "x"
+                failing += " " + " ".join(out[-500:].split())
+            cb_ok = cb_ok and rc == 0
+            ck.oblige("Theorem C12_callbacks_%s : forall s, Inv (Bty fwidth) s -> forall r s', Step s = Ok r s' -> callbacks_clause f_PPC f_PRK f_WDM s s'  "
+                      "[registrations unchanged; with a = PRK'*65536+PPC': cbs (trace s') = wdm ++ pc ++ cbs (trace s), pc = [EvPC a] iff onpc s a, wdm = [EvWDM v] iff onwdm s and opcode = $42; "
+                      "trace s' = tC ++ pc ++ tA ++ trace s with cbs tA = [] (interrupt entry), tC = tC' ++ [EvR a opcode] (the fetch follows the callback), cbs tC = wdm; "
+                      "opcode = $42 -> tC = wdm ++ [EvR a1 v; EvR a $42] and WDM' = v, a1 = PRK'*65536+(PPC'+1) mod 65536; %d routine lemmas (every routine but Step / op_wdm is quiet), "
+                      "WDM opcode(s) %s; %.0fs]" % (mod, len(cbinfo.get("lemmas", [])), cbinfo.get("wdm_opcodes"), dt), rc == 0,
+                      "file %s, first lemma that no longer checks: %s" % (fname, failing))
+            ck.oblige("Theorem C12_callbacks_run_%s : along n steps from a state with fields in their Go types, for every address a the number of EvPC a events grows by the number of steps "
+                      "fetched at a if OnPC is registered at a, by 0 otherwise (static Props/CbLib.run_count instantiated); non-vacuity ex_step: pending IRQ, OnPC at the vector target only" % mod, rc == 0, failing)
+            if rc == 0:
+                ck.assumptions += vlib.parse_assumptions(out)
+            else:
+                cb_broken.append((mod, fname, failing))
         if all_ok:
             pv = os.path.join(vlib.RUN, "C12_run.v")
             vlib.write_if_changed(pv, RUN_V)
@@ -521,8 +567,57 @@ def run_c12(ck):
         ck.cov["traces_validated_against_impl"] = ck.cov.get("traces_validated_against_impl", 0) + len(rows)
         if rows:
             ck.sample({"rununtil_case(target,maxc,result,steps,trajectory)": rows[0][:300]})
+    # the callbacks clause stated directly on the two real interpreters (harness/cbtool.go)
+    if harness and models:
+        ncb = 20000 if ck.tier == "thorough" else 2500
+        names = field_names()
+        shards = vlib.parallel([(lambda i=i: vlib.sh([harness, "cbclause", "-seed", str(ck.seed * 100 + i), "-n", str(ncb), "-fields", ",".join(names)], timeout=1200)) for i in range(4)])
+        cbstats, cbfails = {}, []
+        for i, (rc, out, _) in enumerate(shards):
+            for b in re.split(r"\n(?=FAIL |STAT )", "\n" + out):
+                b = b.strip()
+                mm = re.match(r"STAT (\S+) (\d+)", b)
+                if mm:
+                    cbstats[mm.group(1)] = cbstats.get(mm.group(1), 0) + int(mm.group(2))
+                elif b.startswith("FAIL C12 cb"):
+                    cbfails.append((ck.seed * 100 + i, b))
+        seen = set()
+        for sd, b in cbfails:
+            mm = re.search(r"case=(\d+) step=(\d+) interp=(\w+)", b)
+            key = "C12.callbacks." + (mm.group(3) if mm else "x")
+            if key in seen:
+                continue
+            seen.add(key)
+            ck.violation(key, "counterexample", b[:1500], {"cb_seed": sd, "case": int(mm.group(1)) if mm else -1, "n": ncb,
+                                                            "how": "harness cbclause -seed %d -n %d -case %s -fields ..." % (sd, ncb, mm.group(1) if mm else "?")})
+        ck.cov["callbacks_falsifier"] = cbstats
+        ck.cov["traces_validated_against_impl"] = ck.cov.get("traces_validated_against_impl", 0) + cbstats.get("cb_steps", 0)
+    if models:
+        srcs = [os.path.join(vlib.COQ, "Props", "CbLib.v")] + [os.path.join(vlib.RUN, "C12_%s_%s.v" % (k, m)) for k in ("cbq", "cbs", "cb") for m in ("GenCpu65", "GenCpuAlt")]
+        hyg = []
+        for f in srcs:
+            try:
+                txt = re.sub(r"\(\*.*?\*\)", "", open(f).read(), flags=re.S)
+            except OSError:
+                hyg.append(f + ": missing")
+                continue
+            hyg += ["%s: %s" % (os.path.basename(f), w) for w in re.findall(r"\b(Axiom|Parameter|Conjecture|Admitted|admit|Unset Guard Checking|Unset Universe Checking)\b", txt)]
+        fresh = vlib.static_vo_fresh(os.path.join(vlib.RUN, "C12_cb_GenCpu65.v"))
+        ck.oblige("callbacks clause: static Props/CbLib.vo is fresh; no Axiom/Parameter/Conjecture/Admitted/admit/guard switches in Props/CbLib.v and the generated C12_cb*.v", not hyg and fresh,
+                  "; ".join(hyg) or "stale static library: run ./check --setup")
+    if cb_broken and not ck.violations:
+        mod, fname, failing = cb_broken[0]
+        ck.violation("C12.theorem.callbacks.%s.%s" % (mod, failing.split()[0] if failing else "x"), "broken-theorem",
+                     "callbacks lemma %s over the regenerated model %s no longer checks (file build/work/Run/%s.v); the Go falsifiers (callbacks clause on both real interpreters with pending "
+                     "interrupts and registrations at the vector targets, lockstep trace comparison, RunUntil callback counts) found no failing input" % (failing, mod, fname),
+                     {"lemma": failing, "file": "build/work/Run/%s.v" % fname})
     bad = vlib.foreign_assumptions(ck.assumptions)
     ck.oblige("Print Assumptions: closed under the global context", not bad, "unexpected: %s" % bad)
+    ck.sample({"theorem": "C12_callbacks_GenCpu65_explicit",
+               "statement": "forall s, Inv (Bty fwidth) s -> forall r s', Step s = Ok r s' -> onpc s' = onpc s /\\ onwdm s' = onwdm s /\\ let a := get f_PRK s' * 65536 + get f_PPC s' in "
+                            "let a1 := get f_PRK s' * 65536 + (get f_PPC s' + 1) mod 65536 in let pc := if onpc s a then [EvPC a] else [] in exists tA tC opcode v, "
+                            "let wdm := if onwdm s && (opcode =? 66) then [EvWDM v] else [] in cbs (trace s') = wdm ++ pc ++ cbs (trace s) /\\ trace s' = tC ++ pc ++ tA ++ trace s /\\ cbs tA = [] /\\ "
+                            "(exists tC', tC = tC' ++ [EvR a opcode]) /\\ cbs tC = wdm /\\ (opcode = 66 -> tC = wdm ++ [EvR a1 v; EvR a opcode] /\\ get f_WDM s' = v)"})
     ck.sample({"theorem": "C12_step_GenCpu65", "statement": "forall s, Inv (Bty fwidth) s -> safe (fun r s' => (exists c, r = (c, z2b (get f_Stopped s')) /\\ 1 <= c <= 255 /\\ get f_AllCycles s' = add64 (get f_AllCycles s) c /\\ (get f_Stopped s' = get f_Stopped s \\/ get f_Stopped s' = 1)) /\\ Inv (Bty fwidth) s') (Step s)"})
     ck.cov.update({
         "distinct_nontrivial": stats.get("cases", 0) + ck.cov.get("rununtil_cases", 0),
@@ -530,7 +625,10 @@ def run_c12(ck):
                 "if the stop flag falls in a Step or rises in a Step that fetched no $DB, if Reset leaves the flag set or TriggerIRQ changes it; a third of the multi-step cases are histories with Reset / TriggerIRQ calls, half of them starting with STP) "
                 "plus RunUntil cases: random programs on the real System, targets on/off the trajectory, budgets 0, 1, exact, +-1, random, with counting Logger and OnPC callbacks on every fetched address and on the target",
         "checker_cmd": "coqc build/work/Run/C08_*.v C12_*.v C12_run.v Cases_C12_*.v",
-        "callbacks": "OnPC / OnWDM: compared event by event in the lockstep tie (P:/D: trace events) and counted by the RunUntil falsifier; no separate theorem",
+        "callbacks": "OnPC / OnWDM: Theorems C12_callbacks_<model> (one Step: exactly once, after interrupt entry and immediately before the opcode fetch from the registered address; OnWDM receives "
+                     "the operand byte) and C12_callbacks_run_<model> (n steps: count of EvPC a = number of steps fetched at a) over both regenerated models; tie: P:/D: events compared one by one in "
+                     "the lockstep run of the extracted models; falsifiers: harness cbclause (the clause on both real CPUs, pending interrupts, registrations at the vector targets) and the RunUntil callback counts",
+        "checker_cmd_callbacks": "coqc build/work/Run/C12_cbq_<model>.v C12_cbs_<model>.v C12_cb_<model>.v (engine coq/Props/CbLib.v)",
     })
 
 
@@ -540,6 +638,15 @@ def replay(pid, rp):
     if harness is None:
         print(herr)
         return 1
+    if "cb_seed" in r:
+        vlib.run_gen("cpu")
+        rc, out, _ = vlib.sh([harness, "cbclause", "-seed", str(r["cb_seed"]), "-n", str(r.get("n", 2500)), "-case", str(r["case"]), "-fields", ",".join(field_names())], timeout=1200)
+        hit = [b for b in re.split(r"\n(?=FAIL |STAT |PASS )", "\n" + out) if b.strip().startswith("FAIL C12 cb")]
+        if hit:
+            print(hit[0].strip())
+            return 1
+        print("case no longer fails on the current tree")
+        return 0
     if "seed" in r and "case" in r:
         vlib.run_gen("cpu")
         names = field_names()
